@@ -16,7 +16,7 @@ def exc_name(e):
 
 
 def call(op, i=0, j=0, g=0, p=0, ref=0):
-    return {"op": op, "i": i, "j": j, "g": g, "p": p, "ref": ref}
+    return {"op": op, "i": i, "j": j, "g": g, "p": p, "ref": ref, "aux": 0}
 
 
 class Replayer:
@@ -59,6 +59,8 @@ class Replayer:
             return real.interchange(i, j, left=bool(g))
         if op == "normal_form":
             return real.normal_form(left=bool(g))
+        if op == "foliate":
+            return real.foliation().flatten()
         raise ValueError(op)
 
     def observe(self, real, c):
@@ -81,6 +83,8 @@ class Replayer:
         try:
             res = self.apply(real, c)
             rec["exc"], rec["res"] = "", proj_diagram(res, self.A.names)
+            if c["op"] == "foliate":
+                rec["aux"] = int(real.depth())
             return rec, res
         except Exception as e:
             rec["exc"], rec["res"] = exc_name(e), EMPTY_OBS
@@ -138,6 +142,9 @@ class Replayer:
                 calls.append(rec3)
             rec4, _ = self.observe(real, call("normalize", g=l))
             calls.append(rec4)
+        if self.A.cls == "monoidal":
+            rec5, _ = self.observe(real, call("foliate"))
+            calls.append(rec5)
         return {"d": dabs, "calls": calls}
 
     def family(self, d0, walk):
@@ -185,7 +192,7 @@ class Replayer:
         calls, cur = [], 0
         for c in steps:
             c = dict(c)
-            c.update(p=cur, ref=0)
+            c.update(p=cur, ref=0, aux=0)
             rec, res = self.observe(real, c)
             calls.append(rec)
             if res is not None:
